@@ -604,7 +604,7 @@ def part_e2e(ctx, archs, per_isa, shift_every):
     for arch in archs:
         isa = isa_of_arch(arch)
         ks = kernels[isa]
-        if per_isa is not None and len(ks) > per_isa:
+        if per_isa is not None and len(ks) > per_isa and arch not in getattr(ctx, "hidden_archs", ()):
             fixed = [k for k in ks if "kernel_" in k[0]][:3]
             rest = [k for k in ks if k not in fixed and "triad_arm_iaca" not in k[0] and "unmarked" not in k[0]]
             ks = fixed + ctx.rng.sample(rest, max(0, per_isa - len(fixed)))
@@ -718,15 +718,17 @@ def run(ctx):
         # place where lines without instructions can matter: such models are always part of the end-to-end runs
         import re as _re
 
+        ctx.hidden_archs = set()
         for a in core.shipped_archs():
-            if a not in archs:
-                try:
-                    head = open(os.path.join(core.REPO, "osaca", "data", a + ".yml"), encoding="utf-8").read(20000)
-                except OSError:
-                    continue
-                if _re.search(r"(?m)^hidden_loads:\s*(true|True|yes|on)\b", head):
+            try:
+                head = open(os.path.join(core.REPO, "osaca", "data", a + ".yml"), encoding="utf-8").read(20000)
+            except OSError:
+                continue
+            if _re.search(r"(?m)^hidden_loads:\s*(true|True|yes|on)\b", head):
+                # ... and they run every shipped kernel, not a sample
+                ctx.hidden_archs.add(a)
+                if a not in archs:
                     archs.append(a)
-                    ctx.count("models_with_hidden_loads")
     ctx.env = core.Env("C11", archs=archs)
     ctx.env.activate()
     import osaca.osaca as O
